@@ -9,6 +9,7 @@ std::string gen_name(Rng &rng, const char *prefix, int idx, bool utf8) {
     if (rng.chance(0.3)) s += "_" + std::string(1, (char)('a' + rng.below(26)));
     if (utf8 && rng.chance(0.4)) { static const char *u[] = {"\xc3\xa9", "\xce\xb1", "\xe6\x97\xa5", "\xc3\xbc", "\xc5\x81", "e\xcc\x81", "u\xcc\x88", "a\xcc\x80"}; s += u[rng.below(8)]; }   // the last three are NOT in NFC (decomposed): the library must normalise them
     if (rng.chance(0.05)) s += std::string(1 + rng.below(40), 'x');
+    if (utf8 && rng.chance(0.06)) { s.clear(); int n = 1 + (int)rng.below(6); for (int i = 0; i < n; i++) s += "\xf0\x90\x8c" + std::string(1, (char)(0xb0 + (idx * 7 + i) % 16)); }   // a name made only of 4-byte UTF-8 characters (U+10330..)
     return s;
 }
 
@@ -142,7 +143,7 @@ void gen_partitioned(Rng &rng, const MVar &v, long long numrecs, int nprocs, boo
     long long off = 0;
     for (int i = 0; i < nprocs; i++) {
         int r = order[i]; Access a = g;
-        if (i >= nactive) { a.active = false; if (rng.chance(0.5) && coll && fam == 0) { a.active = true; a.count[d] = 0; } out[r] = a; if (a.active) { a.form = F_VARA; a.stride.clear(); a.imap.clear(); a.flexible = false; a.memtype = v.type == NC_CHAR ? MT_TEXT : native_memtype(v.type); out[r] = a; } continue; }
+        if (i >= nactive) { a.active = false; if (rng.chance(0.5) && coll && fam == 0) { a.active = true; a.count[d] = 0; if (v.isrec && !a.start.empty() && rng.chance(0.5)) a.start[0] = numrecs + (long long)rng.below(4); /* a zero-length write may name a record beyond every record written: it must not count */ } out[r] = a; if (a.active) { a.form = F_VARA; a.stride.clear(); a.imap.clear(); a.flexible = false; a.memtype = v.type == NC_CHAR ? MT_TEXT : native_memtype(v.type); out[r] = a; } continue; }
         if (cyclic) { a.start[d] = g.start[d] + i * g.stride[d]; a.stride[d] = g.stride[d] * nactive; a.count[d] = (c - i + nactive - 1) / nactive; }
         else { long long len = (i == nactive - 1) ? c - off : std::max<long long>(1, (c - off) / (nactive - i)); if (i < nactive - 1 && rng.chance(0.3) && c - off - len > (nactive - i - 1)) len += 1; a.start[d] = g.start[d] + off * g.stride[d]; a.count[d] = len; off += len; }
         if (a.stride.empty()) a.stride.assign(nd, 1);
@@ -321,7 +322,7 @@ Program gen_program(uint64_t seed, const GenParams &gp, const std::string &profi
             } else if (gp.fill && v.isrec) { o.kind = OP_FILL_VAR_REC; o.a[0] = rng.range(0, f.numrecs + 1); emit(o); }
             else if (gp.meta_heavy) {
                 // data-mode metadata updates: rename to a shorter name, overwrite an attribute with a value whose padded size does not grow
-                auto shorter = [&](const std::string &nm) { size_t cut = std::max<size_t>(1, nm.size() - 1 - (nm.size() > 3 ? rng.below(2) : 0)); while (cut > 1 && ((unsigned char)nm[cut] & 0xC0) == 0x80) cut--; return nm.substr(0, cut); };
+                auto shorter = [&](const std::string &nm) { size_t cut = std::max<size_t>(1, nm.size() - 1 - (nm.size() > 3 ? rng.below(2) : 0)); while (cut > 0 && ((unsigned char)nm[cut] & 0xC0) == 0x80) cut--; return cut == 0 ? nm : nm.substr(0, cut); };   // cut at a character boundary (names may consist of multi-byte characters only)
                 int w = (int)rng.below(5);
                 if (w == 0) { o.kind = OP_RENAME_VAR; o.name2 = shorter(v.name); if (o.name2 != v.name) emit(o); }
                 else if (w == 1 && !f.dims.empty()) { o.kind = OP_RENAME_DIM; o.dim = (int)rng.below(f.dims.size()); o.name2 = shorter(f.dims[o.dim].name); if (o.name2 != f.dims[o.dim].name) emit(o); }
